@@ -964,9 +964,9 @@ main(int argc, char **argv)
 	explore("backtrace", run_bt, NULL);
 	// thread interleavings of two concurrent requests through one/two devices
 	explore_b("chain-reqrep-sched", run_chain, (void *) (intptr_t) 0x10,
-	    T ? 2 : 1, T ? 3 : 2, T ? 3 : 2, T ? 400 : 25);
+	    T ? 2 : 1, T ? 2 : 1, T ? 2 : 1, T ? 400 : 30);
 	explore_b("chain-survey-sched", run_chain, (void *) (intptr_t) 0x11,
-	    T ? 2 : 1, T ? 3 : 2, T ? 3 : 2, T ? 400 : 25);
+	    T ? 2 : 1, T ? 2 : 1, T ? 2 : 1, T ? 400 : 30);
 	vx_note("chains",
 	    "reqrep %d, survey %d configurations: k in 0..TTL+2 (survey <= %d) x TTL "
 	    "%s x {2 sockets, 2 contexts} + one socket with its own TTL at every "
